@@ -273,8 +273,11 @@ def gen_header_text(rng, corrupt=0.3):
             fields[j] = str(max(0, int(fields[j]) + rng.choice([-2, -1, 1, 2, 1000]))) if fields[j].isdigit() else fields[j]
         elif m < 0.85:
             fields[rng.choice([1, 1, 3, 5, 6, 8, 10, 11, 12, 12])] = rand_num_text(rng, 0.4)
-        else:
+        elif m < 0.93:
             return " ".join(fields).replace(" ", rng.choice(["\t", "  ", " "]), 1).encode("utf-8")
+        else:
+            d = rng.choice([" ", " ", "\t", "  "])
+            return ((" ".join(fields) + d) if rng.random() < 0.7 else (d + " ".join(fields))).encode("utf-8")
     return " ".join(fields).encode("utf-8")
 
 
@@ -286,7 +289,12 @@ def gen_data_text(rng, corrupt=0.3):
     if rng.random() < corrupt / 2:
         fields = fields + [rand_num_text(rng)] if rng.random() < 0.5 else fields[:2]
     sep = "\t" if rng.random() > corrupt / 3 else rng.choice([" ", "\t\t", ","])
-    return sep.join(fields).encode("utf-8")
+    text = sep.join(fields)
+    if rng.random() < corrupt / 3:
+        # a stray delimiter at either end is an extra (empty) field, not padding
+        d = rng.choice(["\t", "\t", " ", "\t\t", "\t "])
+        text = text + d if rng.random() < 0.7 else d + text
+    return text.encode("utf-8")
 
 
 def gen_line_text(rng):
@@ -387,7 +395,8 @@ def gen_step_case(rng):
     blocks = gen.gen_blocks(rng, shape)
     if rng.random() < 0.3:
         blocks = [((0,) + b[1:]) if rng.random() < 0.3 else b for b in blocks]
-    c = gen.mk_chain(rng, "r", rng.randint(1, 300), "q", rng.randint(1, 300), rng.choice("+-"), rng.choice("+-"), blocks, 1,
+    tn, qn = ("r", "q") if rng.random() < 0.5 else (rng.choice(gen.NAMES), rng.choice(gen.NAMES))
+    c = gen.mk_chain(rng, tn, rng.randint(1, 300), qn, rng.randint(1, 300), rng.choice("+-"), rng.choice("+-"), blocks, 1,
                      big=rng.choice([U64, 2 ** 63, U64 - 1]) if big else None)
     mode = rng.random()
     fam = "adds-up"
@@ -451,7 +460,7 @@ def expected_pairs(c):
         n = b[0]
         rs, re_ = gen.api_pos(c["tstrand"], c["tsize"], t), gen.api_pos(c["tstrand"], c["tsize"], t + n)
         qs, qe = gen.api_pos(c["qstrand"], c["qsize"], q), gen.api_pos(c["qstrand"], c["qsize"], q + n)
-        out.append((("r", c["tstrand"], rs, re_), ("q", c["qstrand"], qs, qe)))
+        out.append(((c["tname"], c["tstrand"], rs, re_), (c["qname"], c["qstrand"], qs, qe)))
         t += n + (b[1] if len(b) == 3 else 0)
         q += n + (b[2] if len(b) == 3 else 0)
     return out, t, q
@@ -462,7 +471,7 @@ def gen_C04(rng, tier):
     groups = []
     for _ in range(n):
         c, fam = gen_step_case(rng)
-        case = "step %s %s" % (xtok(gen.header_line(c).encode()), ",".join(rec_tok(b) for b in c["blocks"]))
+        case = "step %s %s" % (xtok(gen.header_line(c).encode("latin-1")), ",".join(rec_tok(b) for b in c["blocks"]))
         groups.append(group(fam, "c04_step", [case], params={"chain": c}))
     return groups
 
@@ -678,8 +687,17 @@ def gen_C07(rng, tier):
         groups.append(group("lines", "c07_lines", ["lines " + gen.src_tok(data)], params={"nlines": len(kinds)}, nontrivial=len(kinds) > 1))
     for _ in range(n):
         c, fam = gen_step_case(rng)
-        case = "step %s %s" % (xtok(gen.header_line(c).encode()), ",".join(rec_tok(b) for b in c["blocks"]))
+        case = "step %s %s" % (xtok(gen.header_line(c).encode("latin-1")), ",".join(rec_tok(b) for b in c["blocks"]))
         groups.append(group("step-" + fam, "c07_step", [case], params={"nrec": len(c["blocks"])}))
+    # very long lines: one item per line however long the line is (a reader that cuts lines at some buffer size yields more)
+    for L in (4097, 8193, 65537, 70000, 140000) + ((300000,) if tier == "thorough" else ()):
+        name = "n" * L
+        for texts in ([b"x" + name.encode()],
+                      [b"chain 1 a 9 + 0 9 b 9 + 0 9 1", b"9", b"", name.encode(), b"", b"chain 2 a 9 + 0 9 b 9 + 0 9 2", b"9"],
+                      [("chain 1 %s 9 + 0 9 b 9 + 0 9 1" % name).encode(), b"9"]):
+            data = b"\n".join(texts) + b"\n"
+            groups.append(group("long-line", "c07_sections", ["sections " + gen.src_tok(data)], params={"nlines": len(texts)}))
+            groups.append(group("long-line", "c07_lines", ["lines " + gen.src_tok(data)], params={"nlines": len(texts)}))
     return groups
 
 
